@@ -70,13 +70,13 @@ theorem memo_effective (c : Cfg V L E) (P : Hyps c) (v : V) (l : L) (hf : c.f = 
   simp only [call, hl]
 
 /-- **function_transparent_catchall** (the repaired code: `except Exception:` around the load).  With a catch-all clause
-neither H2 nor H3 is needed: for every history, if the pickle never *silently* loads anything but the right entry from a
-file that the history can produce (`hsound`; loading may fail in any way), a completed call returns what the uncached call
-returns.  Whether a reachable mixture `take k new ++ drop k old` can load silently to a wrong value is what
+neither H2 nor H3 is needed: for every history, if everything the pickle *silently* loads from a file that the history can
+produce is either ill-typed (rejected by the `isinstance(log_, RecordLog)` check), an old failed entry, or the right entry
+(`hsound`; loading may also fail in any way), a completed call returns what the uncached call returns.  Whether a reachable mixture `take k new ++ drop k old` can load silently to a wrong value is what
 `stream_two_crashes` / `stream_mixture_exploration` look for on the real pickle. -/
 theorem function_transparent_catchall (c : Cfg V L E) (hall : ∀ e, c.caught e = true)
     (hsound : ∀ (h : List (Event E)) (d : Data V L), c.pk.load (fileAfter c h []) = .ok d →
-        (∃ l v, d = .old l true v) ∨ ∃ v l, c.f = .ret v l ∧ (d = .entry v l ∨ d = .old l false v))
+        d = .illTyped ∨ (∃ l v, d = .old l true v) ∨ ∃ v l, c.f = .ret v l ∧ (d = .entry v l ∨ d = .old l false v))
     (h : List (Event E)) (nonce : Nat) :
     (call c ⟨nonce, .none⟩ (fileAfter c h [])).2.sameAs (uncached c) := by
   have miss_ok : lookup c (fileAfter c h []) = .miss → (call c ⟨nonce, .none⟩ (fileAfter c h [])).2.sameAs (uncached c) := by
@@ -88,7 +88,8 @@ theorem function_transparent_catchall (c : Cfg V L E) (hall : ∀ e, c.caught e 
   | error e =>
     apply miss_ok; simp [lookup, hl, hall]
   | ok d =>
-    rcases hsound h d hl with ⟨l, v, rfl⟩ | ⟨v, l, hf, rfl | rfl⟩
+    rcases hsound h d hl with rfl | ⟨l, v, rfl⟩ | ⟨v, l, hf, rfl | rfl⟩
+    · apply miss_ok; simp [lookup, hl, hall]
     · apply miss_ok; simp [lookup, hl, hall]
     · have : lookup c (fileAfter c h []) = .hit v l := by simp [lookup, hl]
       simp [call, this, uncached, hf, Outcome.sameAs]
